@@ -387,6 +387,43 @@ pub fn dns_nested() -> Vec<Vec<u8>> {
             }
         }
     }
+    // the same octets under other section counts: a record counted in another section than
+    // the one its sender meant (the OPT pseudo-record as an authority or answer record, an
+    // answer as additional data, ...)
+    {
+        let mut r = dns::query(2, &n("q.example.com"), 1, 1, true, None);
+        r.header.qr = true;
+        for k in 0..2u8 {
+            r.answer.push(dns::Rr { name: n("q.example.com"), rtype: 1, class: 1, ttl: 60 + k as u32, rdata: dns::RData::Raw(vec![192, 0, 2, k]) });
+        }
+        r.authority.push(dns::Rr { name: n("example.com"), rtype: 2, class: 1, ttl: 300, rdata: dns::RData::Name(n("ns.example.com")) });
+        r.additional.push(dns::opt_rr(&edns(1232, false, vec![])));
+        let b = dns::encode(&r, dns::Compress::Owners);
+        let total = 4u16;
+        for an in 0..=total {
+            for ns in 0..=(total - an) {
+                let ar = total - an - ns;
+                let mut c = b.clone();
+                c[6..8].copy_from_slice(&an.to_be_bytes());
+                c[8..10].copy_from_slice(&ns.to_be_bytes());
+                c[10..12].copy_from_slice(&ar.to_be_bytes());
+                v.push(c);
+            }
+        }
+        // and with only one ordinary record next to the OPT
+        let mut r1 = dns::query(2, &n("q.example.com"), 1, 1, true, None);
+        r1.header.qr = true;
+        r1.answer.push(dns::Rr { name: n("q.example.com"), rtype: 1, class: 1, ttl: 60, rdata: dns::RData::Raw(vec![192, 0, 2, 9]) });
+        r1.additional.push(dns::opt_rr(&edns(4096, true, vec![(10, vec![7; 8])])));
+        let b1 = dns::encode(&r1, dns::Compress::Off);
+        for (an, ns, ar) in [(2u16, 0u16, 0u16), (1, 1, 0), (0, 2, 0), (0, 1, 1), (0, 0, 2)] {
+            let mut c = b1.clone();
+            c[6..8].copy_from_slice(&an.to_be_bytes());
+            c[8..10].copy_from_slice(&ns.to_be_bytes());
+            c[10..12].copy_from_slice(&ar.to_be_bytes());
+            v.push(c);
+        }
+    }
     // names: every label count 0..=40 and label length 1..=63 at the question
     for labels in 0..=40usize {
         let name: dns::Name = (0..labels).map(|i| vec![b'a' + (i % 26) as u8; 1 + i % 5]).collect();
